@@ -198,9 +198,14 @@ def _property_value(en, name):
         m = en.prog.find_method(cls.qual, name)
     except Exception:
         m = None
-    if m is not None and any(isinstance(d, ast.Name) and d.id == 'property'
-                             for d in m.node.decorator_list) and len(
-                                 m.node.decorator_list) == 1:
+    def is_prop(d):
+        return (isinstance(d, ast.Name) and d.id in (
+            'property', 'cached_property')) or (
+                isinstance(d, ast.Attribute) and d.attr == 'cached_property'
+                and isinstance(d.value, ast.Name)
+                and d.value.id == 'functools')
+    if m is not None and len(m.node.decorator_list) == 1 and is_prop(
+            m.node.decorator_list[0]):
         body = [b for b in m.node.body if not (
             isinstance(b, ast.Expr) and isinstance(b.value, ast.Constant))]
         if len(body) == 1 and isinstance(body[0], ast.Return) and \
@@ -219,6 +224,15 @@ def _property_value(en, name):
                 for d in f2.node.decorator_list)
             if not private_field and names <= {'self'} and not setter:
                 out = v
+        if out is None and len(m.params) == 1 and not any(
+                isinstance(n, (ast.Yield, ast.YieldFrom))
+                for n in ast.walk(m.node)) and not (
+                    len(body) == 1 and isinstance(body[0], ast.Return)):
+            # a computed property with a body of its own: reading it runs
+            # that body - the call it stands for
+            out = ast.Call(func=ast.Attribute(
+                value=ast.Name(id='self', ctx=ast.Load()), attr=name,
+                ctx=ast.Load()), args=[], keywords=[])
     cache[k] = out
     return copy.deepcopy(out) if out is not None else None
 
